@@ -1118,6 +1118,11 @@ func (fc *FuncCtx) callByContract(con *Contract, ref *FuncRef, fn *types.Func, a
 				// the callee's trace postconditions (which calls happened, on what) can be used
 				fc.nwrap++
 				w := &FuncVal{Kind: "wrap", Name: fmt.Sprintf("cb%d", fc.nwrap), Inner: a.Fn, Sig: a.Fn.Sig}
+				if like, ok := con.ParamSpecs[n]; ok && strings.HasPrefix(like, "like ") {
+					// the callee checks the calls of this parameter against the declared function's contract
+					// (including its variant) itself
+					w.LikeChecked = true
+				}
 				if w.Sig == nil && a.Fn.Ref != nil && a.Fn.Ref.Obj != nil {
 					w.Sig, _ = a.Fn.Ref.Obj.Type().(*types.Signature)
 				}
@@ -1397,6 +1402,9 @@ func (fc *FuncCtx) callByContract(con *Contract, ref *FuncRef, fn *types.Func, a
 	for _, e := range con.Ensures {
 		if t, ok := fc.specTry(e.Expr, env); ok {
 			st.assume(t)
+			if e.Assumed {
+				fc.Assumed["assumed (unproved) postcondition "+e.Name+" of "+con.Key+": "+e.Src] = true
+			}
 		}
 	}
 	// callbacks that are closures over functions under contract: effects and panics of the calls the callee made
@@ -1458,6 +1466,28 @@ func (fc *FuncCtx) afterWrappedCalls(w *FuncVal, pre, st *St, pos string, callee
 		}
 	}
 	rng := And(Le(n0, j), Lt(j, n1))
+	// recursion through the callback: if the function behind it belongs to the recursion group of the function
+	// under verification, every call the callee made must decrease the variant (the callee's postcondition has to
+	// say on which arguments it calls its parameter; the variant is evaluated in the state after the call)
+	if comps, src, ok := fc.recVariantOf(w.Inner, args, st, 0); ok && fc.Con.Decreases != nil && !w.LikeChecked {
+		c0 := lexComps(fc.Con.Decreases)
+		if len(c0) != len(comps) {
+			fc.unsupported(st, "variants of different arity inside one recursion group", pos)
+		} else {
+			e0 := fc.newEnv(fc.entry)
+			var nonneg, less []Term
+			eqSoFar := True
+			for k := range comps {
+				v0 := fc.spec(c0[k], e0)
+				nonneg = append(nonneg, Le(IntLit(0), comps[k]))
+				less = append(less, And(eqSoFar, Lt(comps[k], v0)))
+				eqSoFar = And(eqSoFar, Eq(comps[k], v0))
+			}
+			goal := T("(forall (("+j.S+" Int)) "+Implies(rng, And(And(nonneg...), Or(less...))).S+")", SBool)
+			fc.nanon++
+			fc.oblig(st, fmt.Sprintf("call.%s.callback#%d.decreases", callee.Key, fc.nanon), goal, "recursion through a callback terminates: every call the callee makes decreases "+src, pos, nil)
+		}
+	}
 	if known {
 		if cond.S != "false" {
 			// may panic: some call's panic condition held
@@ -1598,6 +1628,95 @@ func (fc *FuncCtx) panicCondOf(fv *FuncVal, args []Term, st *St, depth int) (con
 		return fc.panicCondOf(&FuncVal{Kind: "named", Name: key, Ref: ref}, cargs, st, depth+1)
 	}
 	return False, nil, false
+}
+
+func lexComps(e SExpr) []SExpr {
+	if c, ok := e.(SCall); ok && c.Fn == "lex" && len(c.Args) >= 1 {
+		return c.Args
+	}
+	return []SExpr{e}
+}
+
+// recVariantOf: if calling fv on args is (a closure around) a call of a function of the recursion group of the
+// function under verification, the components of that function's variant at those arguments.
+func (fc *FuncCtx) recVariantOf(fv *FuncVal, args []Term, st *St, depth int) ([]Term, string, bool) {
+	if fv == nil || depth > 6 {
+		return nil, "", false
+	}
+	switch fv.Kind {
+	case "wrap":
+		return fc.recVariantOf(fv.Inner, args, st, depth+1)
+	case "named":
+		con := fc.E.CS.Funcs[fv.Name]
+		if con == nil || con.Decreases == nil || !(con.Key == fc.Con.Key || con.RecGroup != "" && con.RecGroup == fc.Con.RecGroup) {
+			return nil, "", false
+		}
+		env := fc.newEnv(st)
+		env.calleeCon = con
+		if fv.Ref != nil {
+			for i, id := range formalObjs(fv.Ref) {
+				if id != nil && i < len(args) {
+					env.bound[id.Name] = args[i]
+				}
+			}
+		}
+		var out []Term
+		for _, c := range lexComps(con.Decreases) {
+			out = append(out, fc.spec(c, env))
+		}
+		return out, con.DecSrc, true
+	case "lit":
+		if fv.Lit == nil || len(fv.Lit.Body.List) != 1 {
+			return nil, "", false
+		}
+		var ce ast.Expr
+		switch s := fv.Lit.Body.List[0].(type) {
+		case *ast.ReturnStmt:
+			if len(s.Results) == 1 {
+				ce = s.Results[0]
+			}
+		case *ast.ExprStmt:
+			ce = s.X
+		}
+		call, ok := ast.Unparen(ce).(*ast.CallExpr)
+		if ce == nil || !ok {
+			return nil, "", false
+		}
+		work := st.clone()
+		for k, v := range fv.Env.vars {
+			if _, ok := work.vars[k]; !ok {
+				work.vars[k] = v
+			}
+		}
+		i := 0
+		for _, f := range fv.Lit.Type.Params.List {
+			for _, nm := range f.Names {
+				if obj := fv.Info.Defs[nm]; obj != nil && i < len(args) {
+					work.vars[obj] = args[i]
+				}
+				i++
+			}
+		}
+		fc.infoStack = append(fc.infoStack, fv.Info)
+		defer func() { fc.infoStack = fc.infoStack[:len(fc.infoStack)-1] }()
+		fn := fc.calleeFunc(call)
+		if fn == nil {
+			return nil, "", false
+		}
+		key := funcKey(fn)
+		con := fc.E.CS.Funcs[key]
+		if con == nil || con.Decreases == nil || !(con.Key == fc.Con.Key || con.RecGroup != "" && con.RecGroup == fc.Con.RecGroup) {
+			return nil, "", false
+		}
+		nobl := len(fc.Obls)
+		var cargs []Term
+		for _, a := range call.Args {
+			cargs = append(cargs, fc.evalPure(a, work))
+		}
+		fc.Obls = fc.Obls[:nobl]
+		return fc.recVariantOf(&FuncVal{Kind: "named", Name: key, Ref: fc.E.FuncDecl[key]}, cargs, st, depth+1)
+	}
+	return nil, "", false
 }
 
 // mayPanicSyntactically: does a function body contain anything that can panic (calls, indexing, ...)?
